@@ -44,14 +44,6 @@ impl Matcher {
         let matrix_len = matrix.populate_matrix::<INDICES, _>(needle);
         let last_row_off = matrix.row_offs[needle.len() - 1];
         let relative_last_row_off = last_row_off as usize + 1 - needle.len();
-        let (match_end, match_score_cell) = matrix.current_row[relative_last_row_off..]
-            .iter()
-            .enumerate()
-            .max_by_key(|(_, cell)| cell.score)
-            .expect("there must be atleast one match");
-        if INDICES {
-            matrix.reconstruct_optimal_path(match_end as u16, indices, matrix_len, start as u32);
-        }
         #[cfg(nucleo_verif)]
         if INDICES {
             crate::verif::record_matrix(
@@ -59,6 +51,14 @@ impl Matcher {
                 &matrix.current_row[relative_last_row_off..],
                 &matrix.matrix_cells[..matrix_len],
             );
+        }
+        let (match_end, match_score_cell) = matrix.current_row[relative_last_row_off..]
+            .iter()
+            .enumerate()
+            .max_by_key(|(_, cell)| cell.score)
+            .expect("there must be atleast one match");
+        if INDICES {
+            matrix.reconstruct_optimal_path(match_end as u16, indices, matrix_len, start as u32);
         }
         Some(match_score_cell.score)
     }
